@@ -75,6 +75,16 @@ def eigen_map(ana):
 
 @rule("C03", "R2", "NUM", "the eigenvalue map is evaluated without catastrophic cancellation on either sign of d", floor=1, evidence=True)
 def r2(ctx):
+    # the Z update: the soft threshold divides by rho * R only (positive by construction); a data-dependent divisor (|v| in the
+    # "shrinkage" form v * max(1 - lambda/|v|, 0)) is 0/0 for an exactly decoupled sensor with an unpenalised entry
+    st_ = ctx.ana.func("admm.solver.soft_threshold_prox")
+    if len(st_.own_params) == 3:
+        rr = st_.own_params[2]
+        for n_ in Resolver.walk_own(st_.node):
+            if isinstance(n_, ast.BinOp) and isinstance(n_.op, (ast.Div, ast.FloorDiv, ast.Mod)) and not (
+                    (isinstance(n_.right, ast.Name) and n_.right.id == rr) or isinstance(n_.right, ast.Constant)):
+                ctx.unrecognised(st_, f"the soft threshold divides by `{unparse(n_.right, 40)}`, which is not its rho*R argument: that the quotient is finite for "
+                                 "every finite input is not derived here", line=n_.lineno, role="soft-threshold:divisor")
     fi, b, rt, e, d, q, eigh, diag = eigen_map(ctx.ana)
     pieces = tm.pieces_of(e)
     nonneg = {tm.compare(">=", d, 0).key}
